@@ -174,10 +174,13 @@ func (ar *ArrayRules) ElementUniqueValidator() ElementValidationFunc {
 func (ar *ArrayRules) LexicalOrderValidator() ElementValidationFunc {
 	var prev []byte
 	var prevIndex int
+	// a flag instead of "prev == nil": an element of zero length may be passed as nil
+	first := true
 
 	return func(index int, next []byte) error {
 		switch {
-		case prev == nil:
+		case first:
+			first = false
 			prev = next
 			prevIndex = index
 		case bytes.Compare(prev, next) > 0:
@@ -196,9 +199,12 @@ func (ar *ArrayRules) LexicalOrderValidator() ElementValidationFunc {
 func (ar *ArrayRules) LexicalOrderWithoutDupsValidator() ElementValidationFunc {
 	var prev []byte
 	var prevIndex int
+	// a flag instead of "prev == nil": an element of zero length may be passed as nil
+	first := true
 
 	return func(index int, next []byte) error {
-		if prev == nil {
+		if first {
+			first = false
 			prevIndex = index
 			prev = next
 
